@@ -352,7 +352,10 @@ func (w SocialWrappedCallbacks) update(c context.Context, a vocab.ActivityStream
 		}
 		newT, err := streams.ToType(c, m)
 		if err != nil {
-			return err
+			// Not the error value itself: a streams.ErrUnhandledType
+			// leaving this callback would be taken for "no callback
+			// handles an Update".
+			return fmt.Errorf("cannot handle social update: merged object %s: %v", loopId, err)
 		}
 		if err = w.db.Update(c, newT); err != nil {
 			return err
